@@ -43,6 +43,7 @@ var (
 	vPos      int
 	vBounds   map[string]int
 	vFailures []string
+	vAsserts  []string
 	vObs      []string
 	vTmpDirs  []string
 )
@@ -57,7 +58,7 @@ func vLoadReplay(path string) (*vReplayFile, error) {
 		return nil, err
 	}
 	vVec, vPos, vBounds = rf.Vector, 0, rf.Bounds
-	vFailures, vObs = nil, nil
+	vFailures, vObs, vAsserts = nil, nil, nil
 	return rf, nil
 }
 
@@ -124,6 +125,7 @@ func vAssume(c bool) {
 }
 
 func vAssert(label string, c bool) {
+	vAsserts = append(vAsserts, fmt.Sprintf("%s=%v", label, c))
 	if !c {
 		vFailures = append(vFailures, label)
 	}
